@@ -28,3 +28,13 @@ Lemma shipped_roundtrip_l : forall key_ok name fs vs bs (pre suf : bytes),
 Proof.
   intros key_ok name fs vs bs pre suf Hin. apply msg_roundtrip_l. eapply shipped_wf_l. exact Hin.
 Qed.
+
+Lemma reencode_identical_l : forall key_ok m vs bs (pre suf : bytes) vs' o,
+  wf_msg m = true -> msg_ok key_ok m vs = true -> pack_msg key_ok m vs = Ok bs ->
+  (msg_greedy m = false \/ suf = []) ->
+  unpack_msg key_ok m (pre ++ bs ++ suf) (length pre) = Ok (vs', o) ->
+  pack_msg key_ok m vs' = Ok bs /\ o = (length pre + length bs)%nat.
+Proof.
+  intros key_ok m vs bs pre suf vs' o Hwf Hok Hp Hg Hu.
+  rewrite (msg_roundtrip_l key_ok m vs bs pre suf Hwf Hok Hp Hg) in Hu. inversion Hu; subst. split; [exact Hp|reflexivity].
+Qed.
